@@ -267,6 +267,30 @@ theorem pipe_stream_err_iff (m : SMethod) (lvl rid : Bytes) (s : StreamScript) (
   rw [hany, h]
   cases (serveStream m lvl rid s input).handlerErr <;> simp
 
+/-- **serve-context cancellation between turns** keeps the iff: the stream ends with a plain
+end-of-stream and the hook's end gets nil — the response reports an error exactly when the hook
+does, whatever turn the cancellation falls into (seeded change C37-h hands `ctx.Err()` to the hook
+while the client still sees a clean end). -/
+theorem pipe_stream_cancelled_err_iff (m : SMethod) (lvl rid : Bytes) (s : StreamScript) (input : InputStream)
+    (k : Nat) :
+    (pipeStreamCancelledOutcome m lvl rid s input k).dispatched = true ∧
+    (pipeStreamCancelledOutcome m lvl rid s input k).handlerErr =
+      (pipeStreamCancelledOutcome m lvl rid s input k).respError :=
+  pipe_stream_err_iff m lvl rid s _
+
+/-- A cancellation that falls into a turn the stream completes leaves no exception behind by
+itself: if the first `k+1` input batches are served without error, the cancelled call is clean on
+both sides however much input follows. -/
+theorem cancelled_clean_stream (m : SMethod) (lvl rid : Bytes) (s : StreamScript) (input : InputStream) (k : Nat)
+    (h : (serveStream m lvl rid s { input with batches := input.batches.take (k + 1) }).handlerErr = none) :
+    (pipeStreamCancelledOutcome m lvl rid s input k).handlerErr = false ∧
+    (pipeStreamCancelledOutcome m lvl rid s input k).respError = false := by
+  have hi := (pipe_stream_cancelled_err_iff m lvl rid s input k).2
+  have : (pipeStreamCancelledOutcome m lvl rid s input k).handlerErr = false := by
+    unfold pipeStreamCancelledOutcome pipeStreamOutcome cancelServeAt
+    simp only [h, Option.isSome_none]
+  exact ⟨this, by rw [← hi]; exact this⟩
+
 theorem producerResponse_err_iff (cfg : HttpCfg) (s : StreamScript) (limit k : Nat) (enc : Bool) :
     (producerResponse cfg s limit k enc).outcome.dispatched = true ∧
     (producerResponse cfg s limit k enc).outcome.handlerErr = (producerResponse cfg s limit k enc).outcome.respError := by
